@@ -58,6 +58,7 @@ class Block:
         self.all = False
         self.assumed_all = False
         self.header_rewrite = None
+        self.drop_members = []
 
 
 class Unit:
@@ -173,6 +174,8 @@ def _parse_into(unit, path, seen, assumed):
             cur_block.all = True
         elif tag == '@header':
             cur_block.header_rewrite = rest
+        elif tag == '@drop-member':
+            cur_block.drop_members.append(tuple(rest_nc.split()))
         elif tag == '@extra':
             cur_section = ('extra', None)
         elif tag == '@free':
@@ -539,6 +542,33 @@ REWRITE_RULES = {
         (re.compile(r'([A-Za-z_][A-Za-z0-9_.]*?)\s*\.extend\(core::iter::repeat\(([^()]*)\)\.take\(([^;]*?)\)\)(?=\s*[;}])', re.S),
          r'verif_vec_extend_repeat(\1, \2, \3)'),
     ],
+    # R13: the closure-generic traits Reader / Writer are instantiated at the one implementation under contract
+    # (UperReader<B> / UperWriter): Verus rejects the mutually generic trait pair as cyclic, rustc monomorphises the same way
+    'R13r': [
+        (re.compile(r'<R: Reader>'), r'<B: ScopedBitRead>'),
+        (re.compile(r'&mut R\b'), r'&mut UperReader<B>'),
+        (re.compile(r'<R as Reader>::Error'), r'Error'),
+        (re.compile(r'\bR::Error\b'), r'Error'),
+        (re.compile(r'::<R>\('), r'('),
+    ],
+    'R13w': [
+        (re.compile(r'<W: Writer>'), r''),
+        (re.compile(r'&mut W\b'), r'&mut UperWriter'),
+        (re.compile(r'<W as Writer>::Error'), r'Error'),
+        (re.compile(r'\bW::Error\b'), r'Error'),
+        (re.compile(r'::<W>\('), r'('),
+    ],
+    'R13e': [
+        (re.compile(r'\bSelf::Error\b'), r'Error'),
+    ],
+    'R21': [
+        # a datatype constructor used as a function value (unsupported by Verus) -> the closure it abbreviates
+        (re.compile(r'\.map\(Some\)'), r'.map(|verif_v| Some(verif_v))'),
+    ],
+    'R22': [
+        # ToOwned::to_owned of the DEFAULT value constant has no vstd specification: trusted wrapper with the same body
+        (re.compile(r'C::DEFAULT_VALUE\.to_owned\(\)'), r'verif_default_value::<C>()'),
+    ],
     'R3': [
         (re.compile(r'String::from_utf8\(([A-Za-z_][A-Za-z0-9_]*)\)\.map_err\(\|e\| ErrorKind::FromUtf8Error\(e\)\.into\(\)\)'),
          r'verif_string_from_utf8(\1)'),
@@ -696,6 +726,20 @@ class Extractor:
                 fired = True
             if not fired:
                 raise AnchorLost('%s: rewrite rule R18 listed but did not fire' % what)
+        # R13*: instantiate the generic Reader / Writer parameter (signature and body)
+        for rule in sorted(fs.rewrites):
+            optional = rule.endswith('?')
+            rname = rule.rstrip('?')
+            if rname in ('R13r', 'R13w', 'R13e'):
+                lo = sig[parts['name_i']].end
+                txt = src.text[lo:it.end]
+                fired = False
+                for rx, rep in REWRITE_RULES[rname]:
+                    for m in rx.finditer(txt):
+                        p.rewrite(lo + m.start(), lo + m.end(), m.expand(rep), rname)
+                        fired = True
+                if not fired and not optional:
+                    raise AnchorLost('%s: rewrite rule %s listed but did not fire' % (what, rname))
         # R0: name the return value
         has_spec = bool(fs.requires or fs.ensures or fs.decreases)
         if parts['ret'] and not fs.noret:
@@ -747,6 +791,24 @@ class Extractor:
             if sig[kw].text == 'for' and 'iter:' in txt.split('\n')[0]:
                 pass
         # for-loop ghost iterator naming: "@loop k" text may start with "iter NAME" line
+        # R23: a closure whose single parameter is a tuple pattern `|(a, b)| BODY` -> `|verif_p| { let (a, b) = verif_p; BODY }`
+        # (Verus accepts only variables as closure parameters; this is the desugaring rustc performs)
+        if 'R23' in fs.rewrites:
+            fired = False
+            for cl in find_closures(src, bo + 1, bc):
+                b1, b2 = sig[cl['bar1']], sig[cl['bar2']]
+                params = src.text[b1.end:b2.start].strip()
+                if params.startswith('(') and params.endswith(')') and sig[cl['bar1'] + 1].match == cl['bar2'] - 1:
+                    p.rewrite(b1.start, b2.end, '|verif_p|', 'R23')
+                    bt = sig[cl['body']]
+                    if cl['block']:
+                        p.insert(bt.end, ' let %s = verif_p;' % params)
+                    else:
+                        p.insert(bt.start, '{ let %s = verif_p; ' % params)
+                        p.insert(cl['end_pos'], ' }')
+                    fired = True
+            if not fired:
+                raise AnchorLost('%s: rewrite rule R23 listed but did not fire' % what)
         # closures
         if fs.closures:
             cls = find_closures(src, bo + 1, bc)
@@ -870,6 +932,8 @@ class Extractor:
                     fired = True
                 if not fired:
                     raise AnchorLost('%s: rewrite rule %s listed but did not fire' % (what, rule))
+                continue
+            if rule in ('R13r', 'R13w', 'R13e'):
                 continue
             if rule in REWRITE_RULES:
                 fired = False
@@ -1026,6 +1090,8 @@ class Extractor:
                 out.append('    ')
                 out.append(self.function(src, m, fs, b.header, in_trait_decl=(b.kind == 'trait')))
                 out.append('\n\n')
+            elif m.kind in ('type', 'const') and (m.kind, m.name) in b.drop_members:
+                self.log.append({'rule': 'R13', 'what': '%s :: %s' % (b.file, b.header), 'note': 'member `%s %s` dropped (trait impl extracted as inherent impl)' % (m.kind, m.name)})
             elif m.kind in ('type', 'const') and b.all or (m.kind in ('type', 'const')):
                 out.append('    ' + self.plain_item(src, m, '%s :: %s :: %s %s' % (b.file, b.header, m.kind, m.name)) + '\n')
         out.append('}\n')
